@@ -46,6 +46,18 @@ def d1(cx: Cx, ob: Ob) -> None:
                 tg = o.tag(ev.a[1])
                 if tg is not None and tg[0] == "L":
                     ob.violate(fn.qualname, where(fn, ev.line), f"{fn.name} stores into list field `{tg[3]}` shared with input `{tg[2]}`", detail=f"item-store:{tg[3]}")
+            if ev.kind == "store" and op(ev.a) == "attr" and isinstance(ev.b, tuple):
+                # other.F = borrowed.F for a LIST field: the list object itself now belongs to two records
+                tv = o.tag(ev.b)
+                th = o.tag(ev.a[1])
+                if tv is not None and tv[0] == "L" and tv[1] != "S" and not (th is not None and th[0] == "B"):
+                    ob.violate(
+                        fn.qualname,
+                        where(fn, ev.line),
+                        f"{fn.name} assigns the list `{show(ev.b)[:50]}` of a record of its input `{tv[2]}` to `{show(ev.a)[:50]}`: the list OBJECT is now held by a record of the result and by the input's record - a later merge into one (add_prefix / add_record with merge=True, chain) appends to both behind the other converter's lookup tables",
+                        witness="c2 = f(c1); c2.add_prefix(p, new_uri, merge=True): c1.records shows new_uri as a synonym, c1.compress does not know it",
+                        detail=f"list-shared:{tv[3]}",
+                    )
             for t in (ev.a, ev.b):
                 if not isinstance(t, tuple) or ev.kind not in ("expr", "bind", "store", "guard"):
                     continue
